@@ -52,7 +52,7 @@ PROPS = {
          "claim": "Unbounded proof that at each call of user code inside the verified functions -- the hasher in carry/carry_all, the closure hashbrown runs in replace_bucket_with, Clone/Hash inside clone_from, and the predicates of retain and drain_filter -- the structure already satisfies its invariants with only the in-flight element missing (and, for clone_from, the destination's old table already dropped), so unwinding from that point leaves a consistent map. " + V,
          "note": "unwinding itself is not modelled (invariant-at-call-out argument); Clone panics inside hashbrown's clone and double drops during unwinding are not decided",
          "not_decided": ["Clone panics inside hashbrown", "double drops during unwinding", "carry refactored to own the old table locally (seed C07-6) ends UNDECIDED"]},
- "C08": {"level": "proof", "technique": "Verus contracts on iter/drain/into_iter_from and on next/size_hint of RawIntoIter/RawDrain/RawIter",
+ "C08": {"level": "proof", "technique": "Verus contracts on iter/drain/into_iter_from and on next/size_hint of RawIter (real body, rule R18)/RawIntoIter/RawDrain and the map/set wrappers",
          "claim": "Unbounded proof that iter() covers exactly main + old table (old part = clone of the cached iterator), that drain detaches the old table at once, that into_iter/RawIntoIter/RawDrain yield each remaining element once and are fused, that every size_hint is the exact sum, and that the map- and set-level wrappers (Iter, IterMut, Keys, Values, ValuesMut, IntoIter, Drain and the set versions) are created covering the whole map and count down by exactly one per yielded element. " + V,
          "note": "RawIter::next is verified on its real body (rule R18 beta-reduces the closure literals of its map/or_else chain); which VALUE a yielded bucket holds is behind a pointer dereference",
          "not_decided": ["the values handed out by the map/set iterator wrappers (pointer dereference)"]},
@@ -75,11 +75,11 @@ PROPS = {
          "claim": "Unbounded proof that no debug_assert!/cfg!(debug_assertions) arm can fire, that both arms meet one contract, and that no usize computation can overflow, so the two profiles cannot diverge in the raw layer. " + V,
          "note": "hashbrown's own debug assertions are modelled as preconditions; the reflect_remove ordering assertion is not visible to Verus"},
  "C13": {"level": "proof", "technique": "Verus contracts on the HashSet element operations (one-line delegations) over the map/raw-layer contracts they rest on",
-         "claim": "Unbounded proof that HashSet::{insert, replace, remove, take, clear, len, is_empty, reserve, try_reserve, shrink_to*, get_or_insert, iter, drain, into_iter} have the set effect on the underlying table (cardinality changes by exactly the reported result, contents conserved, invariants kept), resting on the C01 clauses of the raw and map functions they delegate to (those clauses also carry the label C13), and that intersection/difference iterate and probe the right operands and terminate. " + V,
+         "claim": "Unbounded proof that HashSet::{insert, replace, remove, take, clear, len, is_empty, reserve, try_reserve, shrink_to*, get_or_insert, iter, drain, into_iter} have the set effect on the underlying table (cardinality changes by exactly the reported result, contents conserved, invariants kept), resting on the C01 clauses of the raw and map functions they delegate to (those clauses also carry the label C13), that intersection/difference iterate and probe the right operands and terminate, and that is_disjoint/is_subset/is_superset/== (real bodies, Iterator::all materialised by rule R20) are memory-safe in every resize phase, terminate, and answer true only when the cardinalities allow it. " + V,
          "note": "is_disjoint/is_subset/is_superset/== are verified on their real bodies (R20) for memory safety, termination and what cardinality decides; their element-wise meaning, union/symmetric_difference (chain) and the operator forms are not decided by Verus (bounded Kani harnesses)",
          "not_decided": ["element-wise meaning of is_subset / is_superset / is_disjoint / ==", "union / symmetric_difference and the operator forms (iterator adapters)", "membership results (values behind bucket pointers)"]},
  "C14": {"level": "proof", "technique": "Verus: every read-only observer of the raw layer (len, find/get, iter, size_hint) is specified as a function of the abstract contents only",
-         "claim": "Unbounded proof that len() is the sum over both tables, that a lookup consults the main table and then the old table, that iter() covers exactly the occupied buckets of both tables and that the cached iterator agrees with the old table after every operation -- i.e. what the read-only API reports does not depend on which table holds an element or on how the state was reached. " + V,
+         "claim": "Unbounded proof that len() is the sum over both tables, that a lookup consults the main table and then the old table, that iter() covers exactly the occupied buckets of both tables and that the cached iterator agrees with the old table after every operation -- i.e. what the read-only API reports does not depend on which table holds an element or on how the state was reached; PartialEq::eq of map and set (real bodies, rule R20) walks exactly that iterator, terminates, and is false whenever the lengths differ. " + V,
          "note": "PartialEq::eq of map and set is verified on its real body (R20) for safety, termination and `== implies equal len`; Debug uses debug_map().entries() and is outside Verus' subset; dependence on hasher state is not decided",
          "not_decided": ["element-wise half of PartialEq::eq; Debug bodies", "independence from hasher state", "reflexivity/symmetry/transitivity of =="]},
 }
